@@ -12,7 +12,9 @@ import dataclasses
 import hashlib
 import json
 import marshal
+import os
 import pickle
+import re
 import sys
 import types
 
@@ -87,6 +89,7 @@ def norm_loc(loc):
             rest = post
         else:
             break
+    rest = re.sub(r"(\[\*\])+", "[*]", rest)
     return (head + ":" + rest) if head is not None else rest
 
 
@@ -111,6 +114,69 @@ def mutable_ids_in_data(d, acc=None):
     return acc
 
 
+_REF_COUNTER = [0]
+
+
+def fresh_library_copy():
+    """A second, PRISTINE copy of the package under a private name: fresh module objects, hence fresh
+    module-level caches, memo tables and enum member maps.  Used as the reference for invariant P5."""
+    import importlib.util
+
+    _REF_COUNTER[0] += 1
+    name = "code_data_pristine_%d" % _REF_COUNTER[0]
+    pkg_dir = os.path.join(boot.TREE, "code_data")
+    spec = importlib.util.spec_from_file_location(name, os.path.join(pkg_dir, "__init__.py"), submodule_search_locations=[pkg_dir])
+    mod = importlib.util.module_from_spec(spec)
+    sys.modules[name] = mod
+    try:
+        spec.loader.exec_module(mod)
+    except BaseException:
+        drop_library_copy(name)
+        raise
+    return name, mod
+
+
+def drop_library_copy(name):
+    for k in list(sys.modules):
+        if k == name or k.startswith(name + "."):
+            del sys.modules[k]
+
+
+def convert_into(obj, mod):
+    """Rebuild a CodeData tree from the classes of another copy of the package (same class names)."""
+    t = type(obj)
+    if dataclasses.is_dataclass(obj) and not isinstance(obj, type):
+        cls = getattr(mod, t.__name__)
+        return cls(**{f.name: convert_into(getattr(obj, f.name), mod) for f in dataclasses.fields(obj)})
+    if t is tuple:
+        return tuple(convert_into(x, mod) for x in obj)
+    if t is frozenset:
+        return frozenset(convert_into(x, mod) for x in obj)
+    return obj
+
+
+def pristine_call(name, arg_value):
+    """The same API call evaluated by a pristine copy of the library on an equal argument."""
+    mname, mod = fresh_library_copy()
+    try:
+        CD = mod.CodeData
+        if name == "from_code":
+            return sched._outcome(lambda: CD.from_code(arg_value))
+        if name == "from_json_data":
+            doc = copy.deepcopy(arg_value)
+            return sched._outcome(lambda: CD.from_json_data(doc))
+        x = convert_into(arg_value, mod)
+        if name == "to_code":
+            return sched._outcome(lambda: x.to_code())
+        if name == "normalize":
+            return sched._outcome(lambda: x.normalize())
+        if name == "to_json_data":
+            return sched._outcome(lambda: x.to_json_data())
+        raise ValueError(name)
+    finally:
+        drop_library_copy(mname)
+
+
 def api_call(name, arg):
     import code_data
 
@@ -126,6 +192,15 @@ def api_call(name, arg):
     if name == "from_json_data":
         return CD.from_json_data(arg)
     raise ValueError(name)
+
+
+def canon_outcome(name, out):
+    if out[0] != "ok":
+        return ("raise", out[1])
+    kind = KIND_OF_RESULT[name]
+    if kind == "doc":
+        return ("ok", fp.doc_fp(out[1], True))
+    return ("ok", snap(kind, out[1]))
 
 
 def doc_probe(v, probes):
@@ -434,6 +509,22 @@ class World(object):
             if first != ofp:
                 loc = "%s->%s" % (first[0] if first[0] == "ok" else "raise:" + first[1], ofp[0] if ofp[0] == "ok" else "raise:" + ofp[1])
                 self.violate("P2-not-repeatable", name, loc, {"first": first, "now": ofp, "in": op["in"]}, mode)
+                if self.stop:
+                    return None
+        # P5: the result equals what a pristine copy of the library (no history at all) gives for an equal argument
+        if op.get("ref") and mode is None:
+            ref = pristine_call(name, arg.value)
+            self.count("pristine_reference_checked")
+            self.faults_fired += 0
+            a = canon_outcome(name, outcome)
+            b = canon_outcome(name, ref)
+            self.event("pristine", name, a == b)
+            if a != b:
+                if a[0] == "ok" and b[0] == "ok":
+                    loc = fp.diff_path(b[1], a[1]) or "?"
+                else:
+                    loc = "%s->%s" % (b[0] if b[0] == "ok" else "raise:" + b[1], a[0] if a[0] == "ok" else "raise:" + a[1])
+                self.violate("P5-differs-from-pristine-library", name, loc, {"in": op["in"], "route": arg.route})
                 if self.stop:
                     return None
         if outcome[0] != "ok":
